@@ -45,7 +45,7 @@ def gen(rng, tier):
 
 class C10(Prop):
     id = "C10"
-    quick_runs = 2000
+    quick_runs = 1500
     thorough_runs = 40000
     assumptions = ["'kept rather than restarted' is checked only when no worker left or died between the beginning "
                    "and the end of the resize call (kernel truth), as the statement says"]
